@@ -35,7 +35,7 @@ theorem mem_exP {t : TaskSpec} (h : t ∈ exP.tasks) : t = exT0 ∨ t = exT1 := 
   simpa [exP] using h
 
 theorem exWF : WF exP := by
-  refine ⟨?_, ?_, ?_, ?_⟩
+  refine ⟨?_, ?_, ?_⟩
   · intro t ht u hu h
     rcases mem_exP ht with rfl | rfl <;> rcases mem_exP hu with rfl | rfl <;>
       first | rfl | (simp [exT0, exT1] at h)
@@ -43,8 +43,6 @@ theorem exWF : WF exP := by
     rcases mem_exP ht with rfl | rfl <;> decide
   · intro t ht u hu
     rcases mem_exP ht with rfl | rfl <;> rcases mem_exP hu with rfl | rfl <;> decide
-  · intro t ht
-    rcases mem_exP ht with rfl | rfl <;> decide
 
 theorem exBT : BodiesTotal exP := by
   intro t ht k
